@@ -48,35 +48,48 @@ def _bad_keys(ctx) -> Dict[str, Any]:
   return {o.key: o for o in ctx.obligations if not o.ok and not o.info_only}
 
 
+def _locate(old_lines, want, tgt, pos, modulo_ws):
+  """Index where `want` matches old_lines (nearest to tgt), or None."""
+  if not [w for w in want if w.strip()]:
+    return None
+  key = (lambda x: x.strip()) if modulo_ws else (lambda x: x)
+  wk = [key(w) for w in want]
+  for delta in sorted(range(-800, 801), key=abs):
+    s0 = tgt + delta
+    if s0 < pos or s0 + len(want) > len(old_lines):
+      continue
+    if [key(x) for x in old_lines[s0:s0 + len(want)]] == wk:
+      return s0
+  return None
+
+
 def apply_unified_diff(src: Source, diff_text: str) -> Dict[str, str]:
-  """Applies a git-style unified diff to the working tree texts -> overlay."""
+  """Applies a git-style unified diff to the working-tree texts -> overlay.
+
+  Like patch(1) it tolerates moved hunks and drops leading/trailing context
+  lines when they no longer match; as a last resort it matches modulo leading
+  whitespace (a region that was re-indented, e.g. wrapped in a `with`) and
+  shifts the added lines by the same amount.
+  """
   overlay: Dict[str, str] = {}
-  files = re.split(r'^diff --git .*$', diff_text, flags=re.M)
-  for chunk in files:
+  for chunk in re.split(r'^diff --git .*$', diff_text, flags=re.M):
     m = re.search(r'^\+\+\+ (?:b/)?(\S+)', chunk, flags=re.M)
     mo = re.search(r'^--- (?:a/)?(\S+)', chunk, flags=re.M)
-    if not m:
+    if not m or m.group(1) == '/dev/null':
       continue
     path = m.group(1)
-    if path == '/dev/null':
-      continue
-    if mo and mo.group(1) == '/dev/null':
-      old_lines: List[str] = []
-    else:
-      old_lines = src.read(path).split('\n')
+    old_lines: List[str] = [] if (mo and mo.group(1) == '/dev/null') else src.read(path).split('\n')
     new_lines: List[str] = []
     pos = 0
     hunks = list(re.finditer(r'^@@ -(\d+)(?:,(\d+))? \+(\d+)(?:,(\d+))? @@.*$', chunk, flags=re.M))
     for i, h in enumerate(hunks):
       start = int(h.group(1))
-      body_start = h.end() + 1
       body_end = hunks[i + 1].start() if i + 1 < len(hunks) else len(chunk)
-      body = chunk[body_start:body_end].split('\n')
-      if body and body[-1] == '':
-        body = body[:-1]
+      body = [l for l in chunk[h.end() + 1:body_end].split('\n') if not l.startswith('\\')]
+      while body and body[-1] == '':
+        body.pop()
+      body = [l if l else ' ' for l in body]
       tgt = max(start - 1, 0)
-      # locate with fuzz: like patch(1), progressively drop leading/trailing
-      # context lines until the remaining context + removed lines match
       lead = 0
       while lead < len(body) and body[lead][:1] == ' ':
         lead += 1
@@ -84,33 +97,43 @@ def apply_unified_diff(src: Source, diff_text: str) -> Dict[str, str]:
       while trail < len(body) - lead and body[len(body) - 1 - trail][:1] == ' ':
         trail += 1
       found = None
-      for fuzz in range(0, max(lead, trail) + 1):
-        dl, dt = min(fuzz, lead), min(fuzz, trail)
-        sub = body[dl:len(body) - dt] if dt else body[dl:]
-        want = [l[1:] for l in sub if l[:1] in (' ', '-')]
-        if not want:
-          continue
-        for delta in sorted(range(-600, 601), key=abs):
-          s0 = tgt + dl + delta
-          if s0 < pos or s0 + len(want) > len(old_lines):
+      shift = 0
+      for modulo_ws in (False, True):
+        for fuzz in range(0, max(lead, trail) + 1):
+          dl, dt = min(fuzz, lead), min(fuzz, trail)
+          sub = body[dl:len(body) - dt] if dt else body[dl:]
+          want = [l[1:] for l in sub if l[:1] in (' ', '-')]
+          f = _locate(old_lines, want, tgt + dl, pos, modulo_ws)
+          if f is None:
             continue
-          if old_lines[s0:s0 + len(want)] == want:
-            found = s0
-            break
+          if modulo_ws:
+            shifts = {(len(a) - len(a.lstrip())) - (len(b) - len(b.lstrip()))
+                      for a, b in zip(old_lines[f:f + len(want)], want) if a.strip()}
+            if len(shifts) != 1:
+              continue
+            shift = shifts.pop()
+          found, body = f, sub
+          break
         if found is not None:
-          body = sub
           break
       if found is None:
         raise AnalysisError(f'patch hunk does not apply to {path} @ {start}')
       new_lines.extend(old_lines[pos:found])
+      k = found
       for l in body:
-        if l.startswith('+'):
-          new_lines.append(l[1:])
-        elif l.startswith(' '):
-          new_lines.append(l[1:])
-        elif l.startswith('\\'):
-          continue
-      pos = found + len([l for l in body if l[:1] in (' ', '-')])
+        tag, txt = l[:1], l[1:]
+        if tag == '+':
+          if shift > 0 and txt.strip():
+            txt = ' ' * shift + txt
+          elif shift < 0 and txt[:-shift].strip() == '':
+            txt = txt[-shift:]
+          new_lines.append(txt)
+        elif tag == ' ':
+          new_lines.append(old_lines[k])
+          k += 1
+        elif tag == '-':
+          k += 1
+      pos = k
     new_lines.extend(old_lines[pos:])
     overlay[path] = '\n'.join(new_lines)
   return overlay
